@@ -21,9 +21,9 @@ def ref_write(layer, n, seed, sched):
     """independent reference: what must be on the wire and what must be returned"""
     p = fill(n, seed)
     if layer == "x224": p = b"\x02\xf0\x80" + p
-    if len(p) + 4 > 0xffff:
+    if layer != "link" and len(p) + 4 > 0xffff:
         return "err:InvalidSize wrote=" + summ(b"")
-    frame = bytes([3, 0, (len(p) + 4) >> 8, (len(p) + 4) & 255]) + p
+    frame = p if layer == "link" else bytes([3, 0, (len(p) + 4) >> 8, (len(p) + 4) & 255]) + p
     out = b""; rest = frame; ok = True
     for st in sched:
         if not rest: break
@@ -105,6 +105,11 @@ def gen_cases(tier, rng):
                 elif r < 0.14: desc.append("0")
                 else: desc.append("%d*%d" % (rng.choice([1, 2, 3, 4, 5, 7, 16, 100, 1460, 5000]), rng.randrange(1, 6)))
             add(layer, n, rng.randrange(256), desc)
+    # the link layer itself (CredSSP hands it whole TSRequests): every byte delivered or an error, at ANY length (no 16-bit limit)
+    for n in [0, 1, 1500, 65534, 65535, 65536, 65537, 70000, 131072]:
+        add("link", n, n % 251, [])
+        add("link", n, 1, ["4096*40"])
+        add("link", n, 2, ["1000*3", "F"])
     # HISTORIES on one client: a write that fails (or succeeds) must leave nothing behind that a later write emits
     def addh(layer, msgs, desc):
         line = "writes %s %s %s" % (layer, ",".join("%d:%d" % m for m in msgs), sched_tok(desc))
